@@ -18,7 +18,7 @@ META = {
     "title": "purity under access histories",
     "level": "model_checking",
     "bounds": {
-        "quick": {"configurations": "CAT x MR(3, transforms by alias / sub-variable id, explicit order with a stale id, id-less insertions, hide), CAT x CAT with insertions and numeric values, CAT strand with sum and difference subtotals, 3-D CAT x MR x CAT sharing one transforms dict across partitions, MR strand",
+        "quick": {"configurations": "CAT x MR(3, transforms by alias / sub-variable id, explicit order with a stale id, id-less insertions, hide), CAT x CAT with insertions and numeric values, CAT strand with sum and difference subtotals, CAT x CAT_DATE with the smoothed measures (default window), 3-D CAT x MR x CAT sharing one transforms dict across partitions, MR strand",
                   "schedules (enumerated)": "every property after a full warm-up in alphabetical and in reverse order; all ordered pairs (Q then P) over 24 key properties; every property read twice; two partitions interleaved; a second and third cube built from the SAME response / transforms objects after use; dict vs {'value': ...} envelope vs JSON text; cached arrays re-read after all other reads",
                   "data (solver)": "all weighted counts symbolic: every value read under a schedule is proved equal to the value of a fresh evaluation on pristine copies"},
         "thorough": {"schedules (enumerated)": "all ordered pairs over ALL public properties", "configurations": "same", "data (solver)": "same"},
@@ -44,8 +44,8 @@ class _JsonStub:
         return copy.deepcopy(_JsonStub.table[text])
 
 
-def props_of(part):
-    return [p for p in R.public_props(part) if p not in EXCLUDE and not p.startswith("smoothed")]
+def props_of(part, smoothed=False):
+    return [p for p in R.public_props(part) if p not in EXCLUDE and (smoothed or not p.startswith("smoothed"))]
 
 
 def snapshot(v):
@@ -87,6 +87,12 @@ def build(config, eng):
                                              "numeric_values": {1: 1, 2: 2, 3: 4}})], w_strict=True)
         tr = {"rows_dimension": {"order": {"type": "explicit", "element_ids": [3, 1]}}}
         return w.response(), tr, 0, 1
+    if config == "waves_smoothing":
+        # categorical-date columns (three waves), numeric values on the rows: the smoothed measures (default window) share their
+        # inputs with the unsmoothed ones
+        w = CellWorld(eng, [("cat", "a", 2, {"missing_at": (1,), "numeric_values": {1: 1, 2: 3}}),
+                            ("catdate", "b", 3, {"missing_at": (0,)})], w_strict=True)
+        return w.response(), {}, 0, 1
     if config == "mr_strand":
         w = CellWorld(eng, [("mr", "m", 3, {})], w_strict=True)
         w.vars[0].item_aliases = ["alpha", "beta", "gamma"]
@@ -103,7 +109,10 @@ def scenario(eng, config="cat_x_mr", all_pairs=False, light=False):
     def fresh_part(k=k0):
         return Cube(copy.deepcopy(resp), transforms=copy.deepcopy(tr), population=P).partitions[k]
 
-    names = props_of(fresh_part())
+    names = props_of(fresh_part(), smoothed=(config == "waves_smoothing"))
+    if config == "waves_smoothing":
+        keep = ("column_proportions", "column_percentages", "column_index", "columns_scale_mean", "counts", "row_proportions", "table_proportions", "columns_margin", "column_std_err")
+        names = [p for p in names if p.startswith("smoothed") or p in keep]
     if config == "waves":
         names = [p for p in names if p in ("counts", "row_labels", "column_labels", "row_codes", "inserted_row_idxs", "rows_margin", "column_proportions", "shape", "payload_order")]
     if light and config != "waves":
@@ -189,7 +198,7 @@ def scenario(eng, config="cat_x_mr", all_pairs=False, light=False):
 
 def specs(tier):
     out = []
-    for cfg in ("cat_x_mr", "cat_x_cat", "3d", "mr_strand", "cat_strand", "waves"):
+    for cfg in ("cat_x_mr", "cat_x_cat", "3d", "mr_strand", "cat_strand", "waves", "waves_smoothing"):
         out.append(dict(module="props.c18", fn="scenario", name="%s schedules" % cfg,
                         params=dict(config=cfg, all_pairs=(tier == "thorough" and cfg not in ("3d", "waves")), light=(cfg in ("3d", "waves"))), max_paths=60, vc_timeouts=(5, 40)))
     return out
